@@ -85,14 +85,20 @@ impl Input for str {
     /// slicing by a range.end-range.start chars.
     #[inline]
     fn slice(&self, range: Range<usize>) -> &<Self as Index<Range<usize>>>::Output {
-        &self[range.start
-            ..range.start
-                + self[range.start..]
+        // The start may be calculated in bytes (e.g. N bytes from the end) and
+        // fall inside a multi-byte char. Move it back to the char boundary.
+        let mut start = range.start.min(self.len());
+        while !self.is_char_boundary(start) {
+            start -= 1;
+        }
+        &self[start
+            ..start
+                + self[start..]
                     .char_indices()
                     .take(range.end - range.start + 1)
                     .map(|(idx, _)| idx)
                     .last()
-                    .unwrap_or(range.start)]
+                    .unwrap_or(0)]
     }
 
     fn start_position() -> Position {
